@@ -151,13 +151,26 @@ func (w *World) c11Content(i int, from, to int, edit bool) {
 			s.EndsAt = timestamppb.New(now.Add(-r.Dur(time.Minute, time.Hour)))
 			s.StartsAt = timestamppb.New(s.EndsAt.AsTime().Add(-time.Hour))
 		}
-		sil = append(sil, &pb.MeshSilence{Silence: s, ExpiresAt: timestamppb.New(s.EndsAt.AsTime().Add(w.retention()))})
+		exp := s.EndsAt.AsTime().Add(w.retention())
+		gcFrom, gcTo := Dur(pInt64(w.Plan, "gc_from")), Dur(pInt64(w.Plan, "gc_to"))
+		if gcTo > gcFrom && !edit && r.Bool(0.12) {
+			// an ended silence whose retention runs out while the restarted instance is
+			// up: its first own maintenance run collects it, then writes its snapshot
+			s.EndsAt = timestamppb.New(now.Add(-r.Dur(time.Minute, time.Hour)))
+			s.StartsAt = timestamppb.New(s.EndsAt.AsTime().Add(-time.Hour))
+			exp = w.Plan.Start.Add(gcFrom + r.Dur(0, gcTo-gcFrom))
+		}
+		sil = append(sil, &pb.MeshSilence{Silence: s, ExpiresAt: timestamppb.New(exp)})
 		e := &npb.Entry{GroupKey: []byte(fmt.Sprintf("{}:{g=\"%d\"}", k/2)), Receiver: &npb.Receiver{GroupName: "r0", Integration: "webhook", Idx: uint32(k % 2)},
 			Timestamp: timestamppb.New(upd), FiringAlerts: []uint64{uint64(k), uint64(k) * 31}, ResolvedAlerts: []uint64{uint64(k) + 5}}
 		if r.Bool(0.5) {
 			e.ReceiverData = map[string]*npb.ReceiverDataValue{"n": dataValue(fmt.Sprintf("i:%d", k)), "f": dataValue("f:1.25"), "s": dataValue("s:thread-" + fmt.Sprint(k))}
 		}
-		ent = append(ent, &npb.MeshEntry{Entry: e, ExpiresAt: timestamppb.New(now.Add(r.Dur(24*time.Hour, 72*time.Hour)))})
+		eexp := now.Add(r.Dur(24*time.Hour, 72*time.Hour))
+		if gcTo > gcFrom && !edit && r.Bool(0.12) {
+			eexp = w.Plan.Start.Add(gcFrom + r.Dur(0, gcTo-gcFrom)) // likewise for a log entry
+		}
+		ent = append(ent, &npb.MeshEntry{Entry: e, ExpiresAt: timestamppb.New(eexp)})
 	}
 	if len(sil) > 0 {
 		in.Int.Silences.Merge(marshalMeshFull(sil...))
@@ -482,7 +495,9 @@ func c11Gen(seed uint64, tier string) *Plan {
 	b.add(Action{At: crashAt + maint + 7*time.Second, Kind: "c11_second_restart"})
 	p.Horizon = crashAt + maint + 12*time.Second
 	p.SortActions()
-	p.Params = map[string]any{"case_key": fmt.Sprintf("content%d %s k%d o%d", content, variant, k, outcome), "k": k, "outcome": outcome, "variant": variant, "n1": n1, "n2": n2}
+	p.Params = map[string]any{"case_key": fmt.Sprintf("content%d %s k%d o%d", content, variant, k, outcome), "k": k, "outcome": outcome, "variant": variant, "n1": n1, "n2": n2,
+		// records that expire between the restart and the restarted instance's first maintenance run
+		"gc_from": int64(crashAt + 3*time.Second), "gc_to": int64(crashAt + maint - 3*time.Second)}
 	return p
 }
 
